@@ -164,6 +164,17 @@ func (ti *tlsInterp) exec(stmts []ast.Stmt) bool {
 	for _, s := range stmts {
 		switch x := s.(type) {
 		case *ast.DeclStmt:
+			// var ( name = value ... ): like an assignment
+			if gd, isGD := x.Decl.(*ast.GenDecl); isGD && gd.Tok == token.VAR {
+				for _, sp := range gd.Specs {
+					if vs, isVS := sp.(*ast.ValueSpec); isVS && len(vs.Names) == len(vs.Values) {
+						ti.helperWrites(x)
+						for i, nm := range vs.Names {
+							ti.assign(nm, vs.Values[i])
+						}
+					}
+				}
+			}
 		case *ast.AssignStmt:
 			for i, l := range x.Lhs {
 				if i >= len(x.Rhs) {
@@ -1163,6 +1174,65 @@ func c20r5(p *Program, r *Report) {
 				return isClass(x.X) != isClass(x.Y)
 			case token.LOR, token.LAND:
 				return membership(x.X, depth) && membership(x.Y, depth)
+			case token.GEQ, token.GTR, token.NEQ:
+				// a search helper: index(list, class) >= 0 / > -1 / != -1, where the helper returns a position only
+				// under an equality of an element with its class argument and a negative constant otherwise
+				c, isC := ast.Unparen(x.X).(*ast.CallExpr)
+				k, isK := constInt(ainfo, x.Y)
+				if !isC || !isK || !(x.Op == token.GEQ && k == 0 || x.Op != token.GEQ && k == -1) {
+					return false
+				}
+				fn := calleeOf(ainfo, c)
+				if fn == nil {
+					return false
+				}
+				h := p.FuncOf(fn)
+				if h == nil || h.Decl.Body == nil {
+					return false
+				}
+				// which parameter receives the class
+				var hClass types.Object
+				for i, a := range c.Args {
+					if isClass(a) {
+						hClass = paramObj(h.Pkg.TypesInfo, h.Decl.Type, i)
+					}
+				}
+				if hClass == nil {
+					return false
+				}
+				hg := p.GraphOf(h)
+				hf := hg.GuardFacts()
+				pos, neg, other := 0, 0, 0
+				for _, he := range hg.Exits() {
+					hrs, isRet := he.Node.(*ast.ReturnStmt)
+					if !isRet || len(hrs.Results) != 1 {
+						if he.Kind != ExitPanic {
+							other++
+						}
+						continue
+					}
+					if v, isConst := constInt(h.Pkg.TypesInfo, hrs.Results[0]); isConst {
+						if v < 0 {
+							neg++
+						} else {
+							other++
+						}
+						continue
+					}
+					f, _ := hf.Before(hrs)
+					eq := false
+					for atom, val := range f.m {
+						if val && strings.Contains(atom, " == ") && mentions(atom, hClass.Name()) {
+							eq = true
+						}
+					}
+					if eq {
+						pos++
+					} else {
+						other++
+					}
+				}
+				return pos > 0 && neg > 0 && other == 0
 			}
 		case *ast.Ident:
 			if depth > 3 {
